@@ -422,7 +422,7 @@ pub fn c10(ctx: &Ctx, rep: &mut Report) {
                 }
                 let run = cli::fml_run_file(&f);
                 rep.evaluations += 1;
-                if run.signal == Some(6) && run.err_str().contains("overflowed its stack") {
+                if (run.signal == Some(6) || run.signal == Some(11)) && (run.err_str().contains("overflowed its stack") || run.err_str().contains("stack-overflow")) {
                     rep.conclusive += 1;
                     let family = name.trim_end_matches(|c: char| c.is_ascii_digit()).trim_end_matches('-').to_string();
                     rep.violation(&format!("C10:native-stack-overflow:{}", family), format!("{}: `fml run` dies by SIGABRT (native stack overflow)", name), r.clone());
@@ -474,6 +474,11 @@ pub fn c10(ctx: &Ctx, rep: &mut Report) {
         if !ctx.mine(k) {
             continue;
         }
+        // stack depth is probed in the plain builds: an instrumented build (AddressSanitizer red zones, Miri) has frames of
+        // another size, so what overflows there says nothing about the toolchain
+        if ctx.build != "release" && ctx.build != "debug" && (name.starts_with("deep-") || name.contains("recursion-depth-") || name.starts_with("recursion-") || name.starts_with("method-recursion-") || name.starts_with("fault-after-deep-")) {
+            continue;
+        }
         // the debug build needs most of a minute to refuse 70 000 constants: release only in the quick tier
         if ctx.quick() && cfg!(debug_assertions) && ["capacity-constants-70000", "capacity-locals-70000", "capacity-fields-40000", "long-run-3000000-iterations", "many-prints-150000", "fault-after-recursion-depth-1000000", "fault-after-method-recursion-depth-1000000"].contains(&name.as_str()) {
             continue;
@@ -488,7 +493,8 @@ pub fn c10(ctx: &Ctx, rep: &mut Report) {
         rep.bump("c10-hostile-shape", name.split(|c: char| c.is_ascii_digit()).next().unwrap_or(&name).trim_end_matches('-'));
         // native recursion proportional to the nesting depth gets a signature of its own per shape (see
         // KNOWN_FINDINGS.txt); any other death by signal is reported by crash_freedom as usual
-        if name.starts_with("deep-") && run.signal == Some(6) && run.err_str().contains("overflowed its stack") {
+        // (the AddressSanitizer build words the same event differently and may deliver SIGSEGV)
+        if name.starts_with("deep-") && (run.signal == Some(6) || run.signal == Some(11)) && (run.err_str().contains("overflowed its stack") || run.err_str().contains("stack-overflow")) {
             rep.conclusive += 1;
             let family = name.trim_end_matches(|c: char| c.is_ascii_digit()).trim_end_matches('-').to_string();
             rep.violation(
@@ -1828,6 +1834,20 @@ pub fn c10_dump(ctx: &Ctx, rep: &mut Report) {
     for (name, src, _) in hostile_shapes(true) {
         // keep valgrind runs short: skip the deliberately huge ones
         if name.starts_with("recursion") || name.starts_with("method-recursion") || name.contains("big-heap") {
+            continue;
+        }
+        // native recursion as deep as the source nests is a recorded finding, probed natively (valgrind's own stack is
+        // smaller still); the remaining giants would take valgrind minutes each
+        if name.starts_with("deep-source-")
+            || name.starts_with("deep-value-")
+            || name.starts_with("capacity-")
+            || name.starts_with("long-run-")
+            || name.starts_with("many-prints-")
+            || name.starts_with("huge-line-")
+            || name.contains("recursion-depth-1000000")
+            || name.contains("recursion-depth-100000")
+            || name.starts_with("fault-after-deep-")
+        {
             continue;
         }
         if std::fs::write(ctx.work.join(format!("vg-{:03}-{}.fml", n, name)), src).is_ok() {
